@@ -29,6 +29,10 @@ def build(H, tier, seed):
     D.vc_getitem(H, 'OperatorDict')
     D.vc_getitem(H, 'UnaryOperatorDict')
     D.vc_symbolic_operands(H)
+    # composite operators: the same polynomial identity for every operand shape (generic / even / odd / single grades) means the
+    # stored grades of an operand cannot influence the value
+    from contracts import inverse_c as I
+    I.vc_compositions_generic(H, tier)
     D.vc_call_binary(H)
     D.vc_unary_call(H)
     A.vc_trivial_accessors(H)
@@ -49,14 +53,17 @@ def standins(tier, seed):
     ops = ['gp', 'op', 'ip', 'lc', 'rc', 'sp', 'cp', 'acp', 'rp', 'add', 'sub', 'sw', 'proj', 'div',
            'neg', 'reverse', 'involute', 'conjugate', 'hodge', 'unhodge', 'normsq', 'inv', 'outerexp', 'outersin', 'outercos']
     if tier == 'quick':
-        cfgs = [dict(p=2, q=0, r=1, random=2), dict(p=3, random=2), dict(p=1, q=1, random=3), dict(name='2DPGA', random=2)]
+        cfgs = [dict(p=2, q=0, r=1, random=2), dict(p=3, random=2), dict(p=1, q=1, random=3), dict(name='2DPGA', random=2),
+                dict(p=4, random=0, ops=['gp', 'sw', 'proj', 'normsq', 'add', 'reverse'],
+                     grade_pairs=[((2,), (0, 1)), ((1, 3), (4,)), ((0, 2), (2, 4))])]
     else:
         cfgs = [dict(p=2, q=0, r=1, random=8), dict(p=3, random=8), dict(p=1, q=1, random=8), dict(name='2DPGA', random=6),
+                dict(p=4, random=2, ops=['gp', 'sw', 'proj', 'normsq', 'add', 'reverse'], grade_pairs=[((2,), (0, 1)), ((1, 3), (4,)), ((0, 2), (2, 4)), ((2,), (0,)), ((1,), (0, 4))]),
                 dict(p=2, q=2, random=5), dict(p=3, q=0, r=1, random=5), dict(name='3DPGA', random=4), dict(p=4, q=1, random=3)]
     # 5-D: code generation for inverses / sandwiches of 32-blade operands takes tens of minutes; linear and bilinear operators only
     heavy = {'inv', 'div', 'sw', 'proj', 'outerexp', 'outersin', 'outercos'}
     d_of = lambda c: c.get('p', 0) + c.get('q', 0) + c.get('r', 0)
     return [{'name': f'storage#{i}', 'bound': 'seeded operand pairs per configuration; variants same / permuted / zero-padded+permuted / full layout (canonical) / full layout (binary) on either operand'
                                               + ('; without ' + ', '.join(sorted(heavy)) if d_of(c) >= 5 else ''),
-             'job': {'kind': 'storage', 'module': 'standins.jobs2', 'ops': [o for o in ops if d_of(c) < 5 or o not in heavy], 'configs': [c], 'seed': seed + i}}
+             'job': {'kind': 'storage', 'module': 'standins.jobs2', 'ops': c.get('ops') or [o for o in ops if d_of(c) < 5 or o not in heavy], 'study': not c.get('ops'), 'configs': [c], 'seed': seed + i}}
             for i, c in enumerate(cfgs)]
